@@ -5,11 +5,11 @@
 set -u
 RES=$1; shift
 ROOT=$(cd "$(dirname "$0")/.." && pwd)
-TAGS=("$@"); [ ${#TAGS[@]} -eq 0 ] && TAGS=($(ls "$RES" | grep -E '^C[0-9][0-9]-[a-i]?[0-9]\.txt$' | sed 's/\.txt$//'))
+TAGS=("$@"); [ ${#TAGS[@]} -eq 0 ] && TAGS=($(ls "$RES" | grep -E '^C[0-9][0-9]-[a-j]?[0-9]\.txt$' | sed 's/\.txt$//'))
 for T in "${TAGS[@]}"; do
   F="$RES/$T.txt"; [ -f "$F" ] || continue
   P=${T%%-*}; N=${T##*-}
-  case "$N" in [a-i]*) SD=/tmp/seed${N:0:1}-$P/SEED/${N:1};; *) SD=/tmp/seed-$P/SEED/$N;; esac
+  case "$N" in [a-j]*) SD=/tmp/seed${N:0:1}-$P/SEED/${N:1};; *) SD=/tmp/seed-$P/SEED/$N;; esac
   [ -f "$SD/patch.diff" ] || SD="$ROOT/seeded/$T"
   [ -f "$SD/patch.diff" ] || { echo "$T no patch"; continue; }
   CHECKS=$(grep -o "RESULT check=C[0-9]*" "$F" | sed 's/RESULT check=//' | sort -u | tr '\n' ' ')
